@@ -331,13 +331,36 @@ def check_timeout(fx, R, ft, cst):
         R.violated('M3', 'RateMonitoring::timeout:predicate', 'the timeout predicate `%s` does not compare the heartbeat stamp with the last data stamp' % tp.cond[0][0], fx.rel(ft['loc']), 'E-ORD')
         return
 
-    def evaluate(x, has_data):
+    # a member the predicate reads besides the stamps (a configured delay ...) takes the value the expected-rate constructor gives it, for expected rates over the quantifier [0.5, 200] Hz
+    config = {}
+    other = [s for s in state_syms if s.name not in ('this.hasData_', 'size(this.periods_)')]
+    if other:
+        rc = [f for f in fx.functions.values() if f.get('ctor') and f.get('cls') == 'romea::core::RateMonitoring' and len(f['params']) == 1 and not f.get('copyctor')]
+        try:
+            cs = sym.Reader(fx).run(rc[0]) if len(rc) == 1 else []
+        except sym.Unsupported:
+            cs = []
+        if len(cs) == 1:
+            for s in other:
+                v = cs[0].fields.get(tuple(['this'] + s.name.split('.')[1:]))
+                if isinstance(v, sp.Basic) and all(y.name == 'arg:' + rc[0]['params'][0]['name'] for y in v.free_symbols):
+                    config[s] = v
+    RATES = [sp.Rational(1, 2), 1, 2, sp.Rational(39, 10), 4, 10, 200] if config else [None]
+
+    def evaluate(x, has_data, rate=None):
         sub = {stamp: sp.Integer(x), last: sp.Integer(0)}
         for s in state_syms:
             if s.name == 'this.hasData_':
                 sub[s] = sp.Integer(1 if has_data else 0)
             elif s.name == 'size(this.periods_)':
                 sub[s] = sp.Integer(3 if has_data else 0)
+            elif s in config and rate is not None:
+                cv = config[s].subs({y: sp.nsimplify(rate) for y in config[s].free_symbols})
+                cv = cv.replace(lambda t: t.func == sp.Function('idiv'), lambda t: sp.floor(t.args[0] / t.args[1])).replace(lambda t: t.func == sp.Function('trunc'), lambda t: sp.floor(t.args[0]))
+                cv = sp.nsimplify(sp.simplify(cv), rational=True)
+                if not cv.is_number:
+                    return None
+                sub[s] = cv
             else:
                 return None
         v = cond.subs(sub)
@@ -347,18 +370,21 @@ def check_timeout(fx, R, ft, cst):
         if v in (sp.true, sp.false):
             return bool(v)
         return None
-    for x in WITNESS_NS:
-        got = evaluate(x, True)
+    for x in WITNESS_NS + ([800000000, 1900000000, 3900000000] if config else []):
         inst = 'RateMonitoring::timeout:elapsed=%dns' % x
-        if got is None:
-            R.undecided('M3', inst, 'predicate not evaluable')
+        gots = [(r_, evaluate(x, True, r_)) for r_ in RATES]
+        if any(g is None for (_r, g) in gots):
+            R.undecided('M3', inst, 'predicate not evaluable' + (' (it reads %s, whose configured value is not readable)' % [s.name for s in other if s not in config] if other else ''))
             continue
         want = x > 500000000
-        if got != want:
-            R.violated('M3', 'RateMonitoring::timeout:boundary', 'a heartbeat %d ns after the last stamp %s a timeout; the statement requires timeout <=> elapsed > 0.5 s (extracted predicate: %s)' % (
-                x, 'reports' if got else 'does not report', tp.cond[0][0]), fx.rel(ft['loc']), 'E-ORD')
+        bad = [(r_, g) for (r_, g) in gots if g != want]
+        if bad:
+            r_, got = bad[0]
+            R.violated('M3', 'RateMonitoring::timeout:boundary', 'a heartbeat %d ns after the last stamp %s a timeout%s; the statement requires timeout <=> elapsed > 0.5 s whatever the expected rate '
+                       '(extracted predicate: %s%s)' % (x, 'reports' if got else 'does not report', ' on a monitor built for an expected rate of %s Hz' % r_ if r_ is not None else '', tp.cond[0][0],
+                                                        ''.join('; %s = %s' % (k_.name, v_) for k_, v_ in config.items())), fx.rel(ft['loc']), 'E-ORD')
         else:
-            R.holds('M3', inst, 'timeout=%s' % got, fx.rel(ft['loc']), 'E-ORD')
+            R.holds('M3', inst, 'timeout=%s%s' % (want, ' for expected rates %s' % RATES if config else ''), fx.rel(ft['loc']), 'E-ORD')
     # the state the predicate calls "has data" must be established by EVERY path of update(): a stamp has been seen from the first one on
     fu_ = fx.one(NS + 'RateMonitoring::update') if 'NS' in globals() else None
     if fu_ is None:
@@ -379,9 +405,12 @@ def check_timeout(fx, R, ft, cst):
                 R.holds('M3', 'RateMonitoring::update:has-data', 'every path of update() sets hasData_', fx.rel(fu_['loc']), 'E-STATE')
         except sym.Unsupported as u:
             R.undecided('M3', 'RateMonitoring::update:has-data', str(u))
-    nodata = [evaluate(x, False) for x in WITNESS_NS]
-    R.check(all(v is False for v in nodata), 'M3', 'RateMonitoring::timeout:no-data', 'before any data stamp the predicate evaluates to %s on the witnesses' % nodata,
-            'never a timeout before the first stamp', fx.rel(ft['loc']), 'E-ORD')
+    nodata = [evaluate(x, False, r_) for x in WITNESS_NS for r_ in RATES]
+    if any(v is None for v in nodata):
+        R.undecided('M3', 'RateMonitoring::timeout:no-data', 'predicate not evaluable before the first stamp')
+    else:
+        R.check(all(v is False for v in nodata), 'M3', 'RateMonitoring::timeout:no-data', 'before any data stamp the predicate evaluates to %s on the witnesses' % nodata,
+                'never a timeout before the first stamp', fx.rel(ft['loc']), 'E-ORD')
     if cst is not None:
         hd = cst.fields.get(fld('hasData_'))
         pq = cst.fields.get(fld('periods_'))
@@ -439,8 +468,25 @@ def check_wiring(fx, R):
         rm, ck = inits.get('rateMonitoring_'), inits.get('checkup_')
         okc = rm == ('new:RateMonitoring', 'rate') and isinstance(ck, tuple) and len(ck) == 5 and ck[1] == ('+', 'name', '_rate') and ck[2] == 'rate' and ck[3] == 'espilon' \
             and ck[4] == ('new:Diagnostic', 'romea::core::DiagnosticStatus::ERROR', ('+', 'no data received from ', 'name'))
+        # value rule for the two numeric arguments of the wrapped check-up: for witness (rate, tolerance) pairs of the quantifier (every tolerance, also above the rate) they are the configured rate and tolerance
+        wiring_fact = (False, '')
+        if not okc and isinstance(ck, tuple) and len(ck) == 5:
+            from .. import mini
+            pnames = [p_['name'] for p_ in ctor[0]['params']]
+            tol_name = next((n_ for n_ in pnames if n_.lower().startswith(('espilon', 'epsilon', 'tol'))), None)
+            if 'rate' in pnames and tol_name:
+                for (rate_, tol_) in ((10.0, 0.1), (10.0, 15.0), (0.5, 2.0), (200.0, 1.0), (1.0, 1.0)):
+                    try:
+                        env_ = {'rate': rate_, tol_name: tol_}
+                        got_ = (mini.Step(deep_unwrap).ev(ck[2], dict(env_)), mini.Step(deep_unwrap).ev(ck[3], dict(env_)))
+                    except mini.Unsupported:
+                        break
+                    if got_ != (rate_, tol_):
+                        wiring_fact = (True, 'built with expected rate %g Hz and tolerance %g Hz the wrapped check-up is given (target %g, tolerance %g): OK / too low / too high are then not decided by the configured '
+                                       'threshold (every tolerance is inside the quantifier; check-up arguments: %s, %s)' % (rate_, tol_, got_[0], got_[1], ck[2], ck[3]))
+                        break
         R.form(okc, 'M4', cname + ':constructor', 'constructor wiring differs: monitor %s, check-up %s' % (rm, ck),
-                'monitor(rate); check-up(name_rate, rate, epsilon, ERROR "no data received from <name>")', fx.rel(ctor[0]['loc']), 'E-STATE')
+                'monitor(rate); check-up(name_rate, rate, epsilon, ERROR "no data received from <name>")', fx.rel(ctor[0]['loc']), 'E-STATE', facts=[wiring_fact])
 
 
 class _Remap:
